@@ -314,6 +314,583 @@ def oracle_enc_history(ctx, W, L, ta, tb, parity):
         oracle_encx(ctx, W, L, W.terms_of(A @ B), parity, lad=lad, enc=eP)
 
 
+# ---------------------------------------------------------------------------------------------
+# OBJECT HISTORIES (round 3, class of seed C11-9: anything the encoder remembers about a FieldOperator OBJECT -
+# memoised encodings validated by id()/shape/pattern, cached tables keyed by object identity, results handed out
+# without a copy).  The property speaks about the operator AS IT IS when it is encoded, so:
+#   one (or two, three) FieldOperator objects live through a sequence of steps; after every step every live operator
+#   is encoded again and the result must be
+#     (a) the same set of weighted strings as the encoding of a FRESH operator built from the current patterns and
+#         deep-copied coefficient values (kept in a shadow copy that never meets the library),
+#     (b) exactly the reference matrix of those current values (np.kron reference / parity: ordered products of the
+#         encoder's own ladder operators, taken from fresh single-ladder operators);
+#   every result handed out earlier keeps its strings and weights; encode leaves the operator and the caller's arrays
+#   as the steps left them.
+# A history is a JSON-able description (values are small dyadic Gaussian numbers, [re, im]):
+#   {"kind": "enclife", "parity", "L", "arrays": [array...], "ops": [[{"pat", "arr"}...]...], "steps": [step...]}
+#   array = {"shape", "dtype": complex128|float64|int64, "vals" (logical C order), "order": "F"?, "view": true?}
+#           - what the CALLER holds and passes to FieldOperatorTerm (np.asarray does not copy); "view": the caller
+#           passes big[1] of a larger array `big` and may write through `big`
+#   steps:  {"do": "encode"}                                       nothing happens, everything is encoded again
+#           {"do": "write", "via": "term"|"caller"|"base", "op", "term", "arr", "how": set|fill|scale|neg|zero|conj, ...}
+#                                                                  in-place write into a coefficient array
+#           {"do": "replace", "op", "term", "arr", "copy"?, "drop_first"?}   term.coeffs = another array (of the caller /
+#                                                                  a private copy / after dropping the old one: id() reuse)
+#           {"do": "append", "op", "at", "pat", "arr"} {"do": "remove", "op", "term"} {"do": "reorder", "op", "perm", "inplace"}
+#           {"do": "repat", "op", "term", "pat", "how": "tuple"|"desc"}   other creation/annihilation pattern, same array
+#           {"do": "newop", "terms"}                               a further operator (may share arrays with the others)
+#           {"do": "gc", "op", "drop", "arrays", "terms"}          del operator + its arrays, gc.collect(), new arrays and a
+#                                                                  new operator of the same shapes (id() reuse)
+#           {"do": "result", "op", "how"}                          modify the PauliOperator returned last for that operator
+LIFE_SETVALS = {"c": [3 - 2j, -3 + 1j, 5, 0.75j, -0.25 + 3j], "f": [5.0, -3.0, 0.75, -2.5], "i": [5, -3, 7, 4]}
+LIFE_SCALES = {"c": [2, -1, 0.5, 1j, -0.5j], "f": [2.0, -1.0, 0.5, -0.25], "i": [2, -1, 3]}
+LIFE_STYLE = {"complex128": ["dense", "dense", "sparse", "single"], "float64": ["real"], "int64": ["real-int"]}
+LIFE_HOWS = ["set", "fill", "scale", "neg", "zero", "conj"]
+LIFE_RESULT_HOWS = ["scale-weight", "set-pauli", "phase", "pop", "clear", "add", "set-field", "prune"]
+LIFE_KINDS = ["write"] * 7 + ["replace"] * 2 + ["append", "remove", "reorder", "repat", "repat", "newop", "gc", "result", "result", "encode"]
+LIFE_TAG = {"encode": "encoding-again", "replace": "replacing-term.coeffs-by-another-array", "append": "appending-a-term",
+            "remove": "removing-a-term", "reorder": "reordering-the-terms", "repat": "changing-the-operator-pattern-of-a-term",
+            "newop": "encoding-another-operator", "gc": "garbage-collecting-an-operator-and-its-arrays",
+            "result": "modifying-the-returned-PauliOperator"}
+LIFE_VIA = {"term": "term.coeffs", "caller": "the-array-the-caller-passed", "base": "the-base-of-the-view-the-caller-passed"}
+
+
+def life_tag(st):
+    if st["do"] == "write":
+        return "in-place-write-through-" + LIFE_VIA[st["via"]]
+    return LIFE_TAG[st["do"]]
+
+
+def _pair(v):
+    return [float(np.real(v)), float(np.imag(v))]
+
+
+def life_array(a):
+    """array description -> (the array as the caller holds it, the larger array it is a view of or None)"""
+    shape = tuple(a["shape"])
+    flat = np.array([complex(r, i) for r, i in a["vals"]], dtype=complex).reshape(shape)
+    dt = np.dtype(a.get("dtype", "complex128"))
+    arr = np.array(flat if dt.kind == "c" else flat.real, dtype=dt, order=a.get("order", "C"))
+    if a.get("view"):
+        big = np.zeros((2,) + shape, dtype=dt)
+        big[1, ...] = arr
+        return big[1, ...], big
+    return arr, None
+
+
+def life_val(dt, v):
+    return complex(v[0], v[1]) if dt.kind == "c" else float(v[0]) if dt.kind == "f" else int(v[0])
+
+
+def life_write(a, st):
+    """the in-place write of a step, on the array `a` (numpy semantics; also applied to the shadow copy)"""
+    how = st["how"]
+    if how == "set":
+        a[tuple(st["idx"])] = life_val(a.dtype, st["val"])
+    elif how == "fill":
+        new = np.array([life_val(a.dtype, v) for v in st["vals"]], dtype=a.dtype).reshape(a.shape)
+        if a.ndim:
+            a[:] = new
+        else:
+            a[...] = new
+    elif how == "scale":
+        a *= life_val(a.dtype, st["by"])
+    elif how == "neg":
+        np.negative(a, out=a)
+    elif how == "zero":
+        a.fill(0)
+    elif how == "conj":
+        np.conjugate(a, out=a)
+    else:
+        raise ValueError(how)
+
+
+def same_weighted_strings(l1, l2):
+    """two listings as SETS of (string, weight): no string twice, equal weights (numerically: -0.0 = 0.0); strings of
+    negligible weight are not compared (dimension marker of an all-cancelling operator)"""
+    if len({t[:3] for t in l1}) != len(l1) or len({t[:3] for t in l2}) != len(l2):
+        return False
+    return {t[:3]: t[3] for t in l1 if abs(t[3]) > 1e-14} == {t[:3]: t[3] for t in l2 if abs(t[3]) > 1e-14}
+
+
+class LifeRun:
+    """the library objects of one history + a shadow copy of all values (plain arrays the library never sees)"""
+
+    def __init__(self, ctx, W, inp, lads=None):
+        self.ctx, self.W, self.inp = ctx, W, inp
+        self.L, self.parity = inp["L"], bool(inp.get("parity"))
+        self.name = "parity" if self.parity else "jw"
+        self.f = encoder_of(W, self.parity)
+        self.lad = None
+        if self.parity:
+            lads = {} if lads is None else lads
+            if self.L not in lads:
+                lads[self.L] = enc_lad_impl(W, self.L, True)
+            self.lad = lads[self.L]
+        self.pool, self.bases, self.pkey, self.sh, self.nkey = [], [], [], {}, 0
+        self.ops, self.sops = [], []           # FieldOperator objects / shadow: [[pattern, key into self.sh], ...]
+        self.held, self.last = [], {}
+        for a in inp["arrays"]:
+            self.mk_array(None, a)
+        for terms in inp["ops"]:
+            self.mk_op(None, terms)
+
+    def key(self):
+        self.nkey += 1
+        return self.nkey
+
+    def mk_array(self, k, a):
+        arr, big = life_array(a)
+        kk = self.key()
+        self.sh[kk] = arr.copy(order="K")
+        if k is None:
+            self.pool.append(arr), self.bases.append(big), self.pkey.append(kk)
+        else:
+            self.pool[k], self.bases[k], self.pkey[k] = arr, big, kk
+
+    def mk_term(self, t):
+        k = t["arr"]
+        term = self.W.term(self.L, t["pat"], self.pool[k])
+        if np.shares_memory(term.coeffs, self.pool[k]):
+            key = self.pkey[k]                 # np.asarray did not copy: the term sees what the caller writes
+        else:
+            key = self.key()
+            self.sh[key] = np.array(term.coeffs, copy=True, order="K")
+        return term, [list(t["pat"]), key]
+
+    def mk_op(self, o, terms):
+        made = [self.mk_term(t) for t in terms]
+        X, s = self.W.qib.FieldOperator([m[0] for m in made]), [m[1] for m in made]
+        if o is None:
+            self.ops.append(X), self.sops.append(s)
+        else:
+            self.ops[o], self.sops[o] = X, s
+
+    def desc(self, n):
+        return dict(self.inp, steps=self.inp["steps"][:n + 1])
+
+    # ---------------------------------------------------------------- the steps
+    def apply(self, st):
+        import gc
+        W, L, do = self.W, self.L, st["do"]
+        T = W.qib.operator
+        if do == "encode":
+            return
+        if do == "newop":
+            self.mk_op(None, st["terms"])
+            return
+        o = st["op"]
+        X, S = self.ops[o], self.sops[o]
+        if do == "write":
+            if st["via"] == "term":
+                a, key = X.terms[st["term"]].coeffs, S[st["term"]][1]
+            elif st["via"] == "caller":
+                a, key = self.pool[st["arr"]], self.pkey[st["arr"]]
+            else:
+                a, key = self.bases[st["arr"]][1, ...], self.pkey[st["arr"]]
+            life_write(a, st)
+            life_write(self.sh[key], st)
+        elif do == "replace":
+            t, k = st["term"], st["arr"]
+            if st.get("copy"):
+                key = self.key()
+                self.sh[key] = self.sh[self.pkey[k]].copy(order="K")
+                if st.get("drop_first"):
+                    old = id(X.terms[t].coeffs)
+                    X.terms[t].coeffs = None       # the old array may be freed before the new one is made: id() reuse
+                    X.terms[t].coeffs = self.pool[k].copy(order="K")
+                    if id(X.terms[t].coeffs) == old:
+                        self.ctx.count("life_array_id_reused")
+                else:
+                    X.terms[t].coeffs = self.pool[k].copy(order="K")
+            else:
+                key = self.pkey[k]
+                X.terms[t].coeffs = self.pool[k]
+            S[t][1] = key
+        elif do == "append":
+            term, s = self.mk_term(st)
+            X.terms.insert(st["at"], term)
+            S.insert(st["at"], s)
+        elif do == "remove":
+            del X.terms[st["term"]]
+            del S[st["term"]]
+        elif do == "reorder":
+            new = [X.terms[p] for p in st["perm"]]
+            if st.get("inplace"):
+                X.terms[:] = new
+            else:
+                X.terms = new
+            S[:] = [S[p] for p in st["perm"]]
+        elif do == "repat":
+            term = X.terms[st["term"]]
+            types = [T.IFOType.FERMI_CREATE if b else T.IFOType.FERMI_ANNIHIL for b in st["pat"]]
+            if st["how"] == "desc":
+                for dsc, ty in zip(term.opdesc, types):
+                    dsc.otype = ty
+            else:
+                term.opdesc = tuple(T.IFODesc(W.field(L), ty) for ty in types)
+            S[st["term"]][0] = list(st["pat"])
+        elif do == "gc":
+            old = {id(X)} | {id(t.coeffs) for t in X.terms}
+            del X
+            self.ops[o], self.sops[o] = None, None
+            for k in st["drop"]:
+                self.pool[k], self.bases[k] = None, None
+            gc.collect()
+            for k, a in st["arrays"]:
+                self.mk_array(k, a)
+            self.mk_op(o, st["terms"])
+            if old & ({id(self.ops[o])} | {id(t.coeffs) for t in self.ops[o].terms}):
+                self.ctx.count("life_object_id_reused_after_gc")
+        elif do == "result":
+            r = self.last.get(o)
+            if r is None or not r.pstrings:
+                return
+            how = st["how"]
+            if how == "scale-weight":
+                r.pstrings[0].weight = r.pstrings[0].weight * 3
+            elif how == "set-pauli":
+                r.pstrings[0].paulis.set_pauli("Y", 0)
+            elif how == "phase":
+                r.pstrings[-1].paulis.q = (int(r.pstrings[-1].paulis.q) + 2) % 4
+            elif how == "pop":
+                r.pstrings.pop()
+            elif how == "clear":
+                del r.pstrings[:]
+            elif how == "add":
+                r.add_pauli_string(T.WeightedPauliString(T.PauliString.identity(L), 5.0))
+            elif how == "set-field":
+                q = W.qib.field
+                r.set_field(q.Field(q.ParticleType.QUBIT, W.qib.lattice.IntegerLattice((L,), pbc=False)))
+            elif how == "prune":
+                r.remove_zero_weight_strings(tol=1e6)
+            else:
+                raise ValueError(how)
+            for h in self.held:                 # modified on purpose: this is its value from now on
+                if h["enc"] is r:
+                    h["listing"] = enc_listing(r)
+        else:
+            raise ValueError(do)
+
+    # ---------------------------------------------------------------- what must hold after every step
+    def state_diff(self, o, cur):
+        X = self.ops[o]
+        if len(X.terms) != len(cur):
+            return "operator %d has %d terms, expected %d" % (o, len(X.terms), len(cur))
+        for n, (t, (pat, c)) in enumerate(zip(X.terms, cur)):
+            tc = np.asarray(t.coeffs)
+            if list(self.W.pat_of(t)) != list(pat):
+                return "operator %d term %d: pattern %r, expected %r" % (o, n, self.W.pat_of(t), pat)
+            if tc.dtype != c.dtype or tc.shape != c.shape or not np.array_equal(tc, c):
+                return "operator %d term %d: coefficient array differs from the values written" % (o, n)
+        for k, a in enumerate(self.pool):
+            if a is not None and not np.array_equal(a, self.sh[self.pkey[k]]):
+                return "the caller's array %d differs from the values written" % k
+        return None
+
+    def observe_one(self, n, tag, o):
+        ctx, W, L, name = self.ctx, self.W, self.L, self.name
+        cur = [(list(p), self.sh[k].copy(order="K")) for p, k in self.sops[o]]
+        df = self.state_diff(o, cur)
+        if df:
+            ctx.fail(name + ":object-history:operator-does-not-show-the-values-written-after-" + tag, self.desc(n),
+                     "the FieldOperator holds the patterns/arrays the steps gave it", df)
+            return False
+        enc = self.f(self.ops[o])
+        df = self.state_diff(o, cur)
+        if df:
+            ctx.fail(name + ":object-history:operand-modified-by-encode", self.desc(n), "encode leaves operator %d and the caller's arrays unchanged" % o, df)
+            return False
+        lst = enc_listing(enc)
+        self.held.append({"op": o, "step": n, "enc": enc, "listing": lst})
+        self.last[o] = enc
+        lf = enc_listing(self.f(W.op(L, cur)))
+        R = ref_op_matrix(L, cur, self.lad)
+        E = enc.as_matrix() if enc.pstrings else None
+        E = dense(E) if E is not None and np.ndim(E) == 2 else None
+        dm = float(np.abs(E - R).max()) if E is not None and E.shape == R.shape else None
+        if not same_weighted_strings(lst, lf):
+            ctx.fail(name + ":object-history:encoding-differs-from-encoding-of-a-fresh-operator-after-" + tag, self.desc(n),
+                     "encode(operator %d) after the last step = encode(fresh operator with the current patterns and coefficient values): %d strings"
+                     % (o, len(lf)),
+                     "%d strings; first difference %r; max |encoded matrix - reference matrix of the current values| = %r"
+                     % (len(lst), next(((a, b) for a, b in zip(lst, lf) if a != b), None), dm))
+            return False
+        if enc.pstrings and (dm is None or dm != 0):
+            # (the encoding of the fresh operator is wrong in the same way: not a matter of the history, one sig)
+            ctx.fail(name + ":object-history:encoded-matrix-differs-from-reference-matrix-of-the-current-values", self.desc(n),
+                     "matrix of encode(operator %d) = reference matrix of the current values" % o, "max diff %r" % dm)
+            return False
+        return True
+
+    def observe(self, n, tag):
+        order = [o for o, X in enumerate(self.ops) if X is not None]
+        if n % 2 == 0:
+            order.reverse()                      # two operators are encoded alternately, in changing order
+        for o in order:
+            if not self.observe_one(n, tag, o):
+                return False
+        for h in self.held:
+            if enc_listing(h["enc"]) != h["listing"]:
+                self.ctx.fail(self.name + ":object-history:earlier-result-changed-after-" + tag, self.desc(n),
+                              "the PauliOperator returned for operator %d after step %d keeps its strings and weights" % (h["op"], h["step"]),
+                              "it changed at step %d" % n)
+                return False
+        return True
+
+
+def oracle_enc_life(ctx, W, inp, lads=None):
+    """one object history (see above); stops at the first step after which something is wrong"""
+    run = LifeRun(ctx, W, inp, lads)
+    if run.observe(-1, "construction"):
+        for n, st in enumerate(inp["steps"]):
+            run.apply(st)
+            ctx.count("life_" + life_tag(st))
+            if not run.observe(n, life_tag(st)):
+                break
+    return run
+
+
+class LifeGen:
+    """generator of histories; keeps only the STRUCTURE (which term holds which array) to emit valid steps"""
+
+    def __init__(self, rng, L, parity):
+        self.rng, self.L, self.parity = rng, L, parity
+        self.arrays, self.info = [], []         # the caller's arrays: descriptions / {"dt", "nd", "view"}
+        self.ops, self.ops0, self.steps, self.nscale = [], None, [], 0
+
+    def values(self, dt, nd):
+        return base.rand_coeffs(self.rng, self.L, nd, self.rng.choice(LIFE_STYLE[dt]))
+
+    def array_desc(self, nd, dt=None, view=None, order=None):
+        rng = self.rng
+        dt = dt or rng.choice(["complex128"] * 3 + ["float64", "int64"])
+        d = {"shape": [self.L] * nd, "dtype": dt, "vals": [_pair(v) for v in self.values(dt, nd).reshape(-1)]}
+        if view is None:
+            view = rng.random() < 0.15
+        if view:
+            d["view"] = True
+        elif nd >= 2 and (order == "F" or (order is None and rng.random() < 0.15)):
+            d["order"] = "F"
+        return d
+
+    def new_array(self, nd, **kw):
+        d = self.array_desc(nd, **kw)
+        self.arrays.append(d)
+        self.info.append({"dt": d["dtype"], "nd": nd, "view": bool(d.get("view"))})
+        return len(self.arrays) - 1
+
+    def rand_nd(self):
+        return self.rng.choice([n for n in (0, 1, 1, 2, 2, 2, 3) if self.L ** n <= 30])
+
+    def new_terms(self, nterms, share=0.3, **kw):
+        rng, terms = self.rng, []
+        for _ in range(nterms):
+            if self.info and rng.random() < share:
+                k = rng.randrange(len(self.info))
+            else:
+                k = self.new_array(self.rand_nd(), **kw)
+            terms.append({"pat": base.rand_pat(rng, self.info[k]["nd"]), "arr": k})
+        if all(self.info[t["arr"]]["nd"] == 0 for t in terms):      # the encoder needs a field
+            k = self.new_array(rng.choice([1, 2]), **kw)
+            terms.append({"pat": base.rand_pat(rng, self.info[k]["nd"]), "arr": k})
+        return terms
+
+    def start(self, nops=1, nterms=None, share=0.3, first=None):
+        rng = self.rng
+        for n in range(nops):
+            if n == 0 and first is not None:     # a first term with a prescribed kind of array
+                k = self.new_array(first.pop("nd", 2 if self.L <= 3 else 1), **first)
+                terms = [{"pat": base.rand_pat(rng, self.info[k]["nd"]), "arr": k}] + self.new_terms((nterms or 2) - 1, share) \
+                    if (nterms or 2) > 1 else [{"pat": base.rand_pat(rng, self.info[k]["nd"]), "arr": k}]
+                if all(self.info[t["arr"]]["nd"] == 0 for t in terms):
+                    terms += self.new_terms(1, 0)
+            else:
+                terms = self.new_terms(nterms or rng.choice([1, 2, 2, 3]), share)
+            self.ops.append(terms)
+        self.ops0 = [[{"pat": list(t["pat"]), "arr": t["arr"]} for t in terms] for terms in self.ops]
+        return self
+
+    def finish(self):
+        return {"kind": "enclife", "parity": self.parity, "L": self.L, "arrays": self.arrays, "ops": self.ops0, "steps": self.steps}
+
+    def has_field(self, terms, without=None):
+        return any(self.info[u["arr"]]["nd"] >= 1 for j, u in enumerate(terms) if j != without)
+
+    def step(self, kind=None, **f):
+        """append one step of the given (or a random) kind; False if that kind is not possible now"""
+        rng, L = self.rng, self.L
+        live = [o for o, t in enumerate(self.ops) if t is not None]
+        kind = kind or rng.choice(LIFE_KINDS)
+        o = f.get("op", rng.choice(live))
+        terms = self.ops[o]
+        if kind == "encode":
+            st = {"do": "encode"}
+        elif kind == "write":
+            t = f.get("term", rng.randrange(len(terms)))
+            tm = terms[t]
+            k, info = tm["arr"], self.info[tm["arr"]]
+            vias = ["term", "term"]
+            if not tm.get("priv"):
+                vias += ["caller", "caller"] + (["base", "base"] if info["view"] else [])
+            via = f.get("via") or rng.choice(vias)
+            if via not in vias:
+                return False
+            c = np.dtype(info["dt"]).kind
+            how = f.get("how") or rng.choice(["set", "set", "fill", "scale", "neg", "zero"] + (["conj"] if c == "c" else []))
+            if how == "scale" and self.nscale >= 3:
+                how = "neg"
+            if how == "conj" and c != "c":
+                return False
+            st = {"do": "write", "op": o, "term": t, "via": via, "how": how}
+            if via != "term":
+                st["arr"] = k
+            if how == "set":
+                st["idx"] = [rng.randrange(L) for _ in range(info["nd"])]
+                st["val"] = _pair(rng.choice(LIFE_SETVALS[c]))
+            elif how == "fill":
+                st["vals"] = [_pair(v) for v in self.values(info["dt"], info["nd"]).reshape(-1)]
+            elif how == "scale":
+                st["by"] = _pair(rng.choice(LIFE_SCALES[c]))
+                self.nscale += 1
+        elif kind == "replace":
+            t = f.get("term", rng.randrange(len(terms)))
+            tm = terms[t]
+            old = self.info[tm["arr"]]
+            mode = f.get("mode") or rng.choice(["pool-new", "pool-new", "pool-shared", "copy", "copy-drop-first"])
+            cand = [k for k, i in enumerate(self.info) if i["nd"] == old["nd"] and k != tm["arr"]]
+            if mode == "pool-shared" and cand:
+                k = rng.choice(cand)
+            else:
+                k = self.new_array(old["nd"], dt=old["dt"] if rng.random() < 0.6 else None)
+            st = {"do": "replace", "op": o, "term": t, "arr": k}
+            tm["arr"] = k
+            tm.pop("priv", None)
+            if mode.startswith("copy"):
+                st["copy"] = True
+                tm["priv"] = True
+                if mode == "copy-drop-first":
+                    st["drop_first"] = True
+        elif kind == "append":
+            if len(terms) >= 4:
+                return False
+            share = f.get("share", rng.random() < 0.4)
+            k = rng.randrange(len(self.info)) if share else self.new_array(self.rand_nd())
+            st = {"do": "append", "op": o, "at": rng.randint(0, len(terms)), "pat": base.rand_pat(rng, self.info[k]["nd"]), "arr": k}
+            terms.insert(st["at"], {"pat": st["pat"], "arr": k})
+        elif kind == "remove":
+            cands = [t for t in range(len(terms)) if self.has_field(terms, without=t)]
+            if len(terms) < 2 or not cands:
+                return False
+            st = {"do": "remove", "op": o, "term": rng.choice(cands)}
+            del terms[st["term"]]
+        elif kind == "reorder":
+            if len(terms) < 2:
+                return False
+            perm = list(range(len(terms)))
+            while perm == list(range(len(terms))):
+                rng.shuffle(perm)
+            st = {"do": "reorder", "op": o, "perm": perm, "inplace": f.get("inplace", rng.random() < 0.5)}
+            terms[:] = [terms[p] for p in perm]
+        elif kind == "repat":
+            cands = [t for t, u in enumerate(terms) if self.info[u["arr"]]["nd"] >= 1]
+            if not cands:
+                return False
+            t = rng.choice(cands)
+            pat = list(terms[t]["pat"])
+            for i in rng.sample(range(len(pat)), rng.randint(1, len(pat))):
+                pat[i] = 1 - pat[i]
+            st = {"do": "repat", "op": o, "term": t, "pat": pat, "how": f.get("how") or rng.choice(["tuple", "desc"])}
+            terms[t]["pat"] = pat
+        elif kind == "newop":
+            if len(live) >= 3:
+                return False
+            new = self.new_terms(rng.choice([1, 2]), share=f.get("share", 0.5))
+            st = {"do": "newop", "terms": [{"pat": list(t["pat"]), "arr": t["arr"]} for t in new]}
+            self.ops.append(new)
+        elif kind == "gc":
+            elsewhere = {u["arr"] for oo in live if oo != o for u in self.ops[oo]}
+            drop = sorted({u["arr"] for u in terms if not u.get("priv")} - elsewhere)
+            arrays = []
+            for k in drop:       # arrays of the same shape and dtype, other values
+                d = self.array_desc(self.info[k]["nd"], dt=self.info[k]["dt"], view=self.info[k]["view"])
+                arrays.append([k, d])
+            new = []
+            for u in terms:
+                k = u["arr"]
+                if u.get("priv") and drop:
+                    same = [kk for kk in drop if self.info[kk]["nd"] == self.info[k]["nd"]]
+                    k = rng.choice(same) if same else k
+                new.append({"pat": list(u["pat"]) if rng.random() < 0.5 else base.rand_pat(rng, self.info[k]["nd"]), "arr": k})
+            st = {"do": "gc", "op": o, "drop": drop, "arrays": arrays, "terms": [dict(u) for u in new]}
+            self.ops[o] = new
+        elif kind == "result":
+            st = {"do": "result", "op": o, "how": f.get("how") or rng.choice(LIFE_RESULT_HOWS)}
+        else:
+            raise ValueError(kind)
+        self.steps.append(st)
+        return True
+
+
+def life_family(rng, thorough, parity):
+    """every kind of step once per run in a short history of its own (coefficient dtype / access path / variant
+    enumerated), then random histories"""
+    out = []
+
+    def short(L, kind, first=None, nops=1, start_share=0.3, pre=(), **f):
+        for _attempt in range(8):
+            g = LifeGen(rng, L, parity).start(nops=nops, nterms=2, share=start_share, first=dict(first) if first else None)
+            for k, kf in pre:
+                g.step(k, op=0, **kf)
+            if g.step(kind, **f):
+                break
+        else:
+            return
+        g.step("encode")
+        if rng.random() < 0.5:                   # and once more: the same kind of step on the already re-encoded object
+            g.step(kind, **f)
+        out.append(g.finish())
+
+    Ls = [1, 2, 2, 3, 3]
+    for via in ("term", "caller", "base"):
+        for how in LIFE_HOWS:
+            short(rng.choice(Ls), "write", first={"dt": "complex128", "view": via == "base", "order": "C"}, op=0, term=0, via=via, how=how)
+    for dt in ("float64", "int64"):
+        for via, how in (("term", "set"), ("caller", "fill"), ("caller", "scale"), ("term", "neg"), ("base", "set")):
+            short(rng.choice(Ls), "write", first={"dt": dt, "view": via == "base", "order": "C"}, op=0, term=0, via=via, how=how)
+    short(3, "write", first={"dt": "complex128", "view": False, "order": "F"}, op=0, term=0, via="caller", how="set")
+    for mode in ("pool-new", "pool-shared", "copy", "copy-drop-first"):
+        short(rng.choice(Ls), "replace", op=0, mode=mode)
+        short(rng.choice(Ls), "replace", op=0, mode=mode, pre=(("write", {}),))
+    # the term owns its array (nobody else holds it), which is dropped before the next one is made: id() may be reused
+    short(rng.choice(Ls), "replace", op=0, term=0, mode="copy-drop-first", pre=(("replace", {"term": 0, "mode": "copy"}),))
+    for share in (False, True):
+        short(rng.choice(Ls), "append", op=0, share=share)
+    short(rng.choice(Ls), "remove", op=0)
+    for inplace in (False, True):
+        short(rng.choice(Ls), "reorder", op=0, inplace=inplace)
+    for how in ("tuple", "desc"):
+        short(rng.choice(Ls), "repat", op=0, how=how)
+    # two operators: encoded alternately, sharing arrays, one of them garbage-collected and rebuilt
+    for share in (0.0, 1.0):
+        short(rng.choice(Ls), "write", nops=2, start_share=share, op=0)
+        short(rng.choice(Ls), "newop", share=share)
+        short(rng.choice(Ls), "gc", nops=2, start_share=share, op=0)
+    short(rng.choice(Ls), "gc", nops=1, op=0)
+    for how in LIFE_RESULT_HOWS:
+        short(rng.choice(Ls), "result", op=0, how=how)
+    # random histories
+    for _ in range(160 if thorough else 30):
+        L = rng.choice([1, 2, 2, 3, 3] + ([4] if thorough else []))
+        g = LifeGen(rng, L, parity).start(nops=rng.choice([1, 1, 2]))
+        want, tries = rng.randint(3, 10 if thorough else 7), 0
+        while len(g.steps) < want and tries < 40:
+            tries += 1
+            g.step()
+        out.append(g.finish())
+    return out
+
+
 def oracle_parity_ladders(ctx, W, L):
     """C12: CAR, vacuum, occupation number = (1 - Z_{i-1} Z_i)/2 for the encoded ladder operators"""
     lad = enc_lad_impl(W, L, True)
@@ -913,6 +1490,29 @@ def encoder_run(ctx, parity):
         except Exception as e:
             ctx.fail(name + ":exception", dict(desc_terms(L, terms), kind="enc", parity=parity, exact=False), "encoded operator", repr(e))
 
+    # ------------------------------------------------------------ object histories (mutation between encodings)
+    ctx.rules.append("OBJECT HISTORIES (L <= 3, thorough 4): one to three FieldOperator objects are encoded, changed and encoded again - "
+                     "in-place writes into a coefficient array (single entry, whole array, scaling, sign, conjugation, zero; complex / "
+                     "float / int arrays; through term.coeffs, through the array the caller passed to FieldOperatorTerm, through the "
+                     "base of a view), term.coeffs replaced by another array (of the caller / private copy / after dropping the old "
+                     "one), terms appended / removed / reordered, creation/annihilation pattern of a term changed (new tuple / IFODesc "
+                     "in place), one array shared by several terms or operators, operators encoded alternately, an operator and its "
+                     "arrays garbage-collected and rebuilt with equal shapes, the returned PauliOperator modified. After every step: "
+                     "encoding = encoding of a fresh operator built from a shadow copy of the current values (as sets of weighted "
+                     "strings), encoded matrix = reference matrix of the current values (exact), earlier results unchanged, operator "
+                     "and caller's arrays unchanged by encode. Every step kind occurs in a short history of its own in every run; "
+                     "plus random histories of 3-7 (thorough 3-10) steps")
+    import time
+    t_life = time.time()
+    for inp in life_family(rng, ctx.thorough, parity):
+        ctx.count("life_histories")
+        ctx.count("life_history_L=%d" % inp["L"])
+        try:
+            oracle_enc_life(ctx, W, inp, lads)
+        except Exception as ex:
+            ctx.fail(name + ":object-history:exception", inp, "encode along an object history", repr(ex))
+    ctx.log("object histories: %d histories in %.1fs" % (ctx.dist.get("life_histories", 0), time.time() - t_life))
+
     ctx.log("harness done: %d cases; evaluating the model in Coq" % len(cases))
     dis = ctx.cases("enc", header, cases, shard=40)
     for i, d in dis[:5]:
@@ -945,6 +1545,8 @@ def encoder_replay(ctx, data):
         L, ta = undesc_terms(inp["a"])
         _, tb = undesc_terms(inp["b"])
         oracle_enc_history(ctx, W, L, ta, tb, parity)
+    elif inp.get("kind") == "enclife":
+        oracle_enc_life(ctx, W, inp)
     elif inp.get("kind") == "selftest":
         if not selftest_pauli_convention(W, 3, ctx.rng):
             ctx.fail(sig, inp)
